@@ -13,6 +13,15 @@ PARSER = 'metamath.parser'
 SLICER = 'metamath.metamath_extract_slice'
 
 
+# set iterations of the slicer read and triaged by hand: one line of reason each
+SLICER_SET_ITERATION_TRIAGED = {
+    ('supporting_database_for_provable', 'global_disjoints'):
+        'only the order of the emitted `$d` statements depends on it, and `$d` statements commute',
+    ('supporting_database_for_provable', 'needed_lemmas'):
+        'the iteration only feeds set unions and the symbol scan (order-insensitive accumulators)',
+}
+
+
 def constructed_classes(py: PyRepo):
     """node classes the parser's transformer can construct: {class name: transformer method}"""
     ci = py.cls('ASTTransformer', PARSER)
@@ -147,9 +156,14 @@ def run(ctx):
             continue
         if s.safe:
             ctx.ob('slice-order', f'{s.function}:{s.key}/{s.consumer}', True, s.why, py.where(SLICER, s.node))
+        elif (s.function, s.expr) in SLICER_SET_ITERATION_TRIAGED:
+            ctx.advisory(f'{s.function}: `{s.expr}` (set of {s.elem}) is iterated in an order-sensitive way ({s.consumer}); '
+                         + SLICER_SET_ITERATION_TRIAGED[(s.function, s.expr)])
         else:
-            ctx.advisory(f'{s.function}: `{s.expr}` (set of {s.elem}) is iterated in an order-sensitive way ({s.consumer}); this affects only '
-                         f'the order of emitted $d statements / a set union, not the content of the slice')
+            ctx.ob('slice-order', f'{s.function}:{s.key}/{s.consumer}', False,
+                   f'{s.function}: `{s.expr}` (a set of {s.elem}) is iterated in an order-sensitive way ({s.consumer}): the order of what is '
+                   f'built from it depends on the hash seed, and the slicer\'s containers carry the database order of the hypotheses',
+                   py.where(SLICER, s.node))
     # floating hypotheses are emitted in the order of that container
     sup = py.function(SLICER, 'supporting_database_for_provable')
     emits = [n for n in ast.walk(sup) if isinstance(n, ast.For) and 'cut_antecedents.items()' in ast.unparse(n.iter)]
@@ -177,6 +191,7 @@ def run(ctx):
             and not node.orelse[-1].test.value)
     ctx.ob('dispatch-ends-raising', 'slice_database', ok,
            'the statement-kind dispatch of slice_database must end in a branch that raises for an unanticipated kind', py.where(SLICER, fn))
+    slice_closure(ctx, py)
     ctx.floor('encoder-exhaustive', 9)
     ctx.floor('keyword-agreement', 8)
     ctx.floor('statement-letter', 5)
@@ -187,6 +202,230 @@ def run(ctx):
         'statement kind; the slicer keeps hypotheses in an insertion-ordered dict and emits them in that order; the statement-kind '
         'dispatch ends in a raising branch. Round-trip identity, self-containedness of slices and re-verification of proofs are not decided.')
     ctx.assumptions = ['python ast; the grammar is the `syntax` string constant of metamath/parser.py']
+
+
+def _own_nodes(fn):
+    """nodes of fn excluding nested function definitions"""
+    stack = list(fn.body)
+    while stack:
+        n = stack.pop()
+        yield n
+        for c in ast.iter_child_nodes(n):
+            if not isinstance(c, (ast.FunctionDef, ast.Lambda)):
+                stack.append(c)
+
+
+def slice_closure(ctx, py: PyRepo):
+    """self-containedness of a slice, as a closure rule over supporting_database_for_provable: every statement the slice EMITS is
+    one whose symbols were SCANNED into the sets the `$c` / `$v` declarations and the floating hypotheses are generated from; the
+    scan is complete before anything is emitted; declarations precede uses; floating hypotheses come out of one in-order pass."""
+    from ..core import astpaths
+    fn = py.function(SLICER, 'supporting_database_for_provable')
+    where = py.where(SLICER, fn)
+    params = [a.arg for a in fn.args.args]
+    ctx.require(len(params) == 5, 'supporting_database_for_provable: signature changed (expected cut antecedents, global disjoints, '
+                                  'syntax dependencies, provable, essentials)')
+    CUT, _GD, _SD, PROV, ESS = params
+    ret = [n for n in fn.body if isinstance(n, ast.Return)]
+    ctx.require(len(ret) == 1 and re.fullmatch(r'Database\(tuple\((\w+)\)\)', ast.unparse(ret[0].value)) is not None,
+                'supporting_database_for_provable: does not end in `return Database(tuple(<list>))`')
+    OUT = re.fullmatch(r'Database\(tuple\((\w+)\)\)', ast.unparse(ret[0].value)).group(1)
+    top_index = {}
+    for i, st in enumerate(fn.body):
+        for n in ast.walk(st):
+            top_index[id(n)] = i
+    loops = [n for n in _own_nodes(fn) if isinstance(n, ast.For)]
+    loop_of = {}
+    for lp in loops:
+        for st in lp.body + lp.orelse:
+            for n in ast.walk(st):
+                loop_of.setdefault(id(n), lp)      # innermost is set by the later (inner) loop: override below
+    for lp in sorted(loops, key=lambda l: l.lineno):
+        for st in lp.body:
+            for n in ast.walk(st):
+                loop_of[id(n)] = lp
+
+    # ---- the sets the declarations are generated from
+    def decl_var(cls):
+        for n in _own_nodes(fn):
+            if isinstance(n, ast.Call) and isinstance(n.func, ast.Name) and n.func.id == cls:
+                names = [x.id for x in ast.walk(n) if isinstance(x, ast.Name) and x.id not in (cls, 'tuple', 'sorted', 'Metavariable', 'var')]
+                loc = [x for x in names if any(isinstance(a, (ast.Assign, ast.AnnAssign)) and ast.unparse(a.targets[0] if isinstance(a, ast.Assign) else a.target) == x
+                                               for a in _own_nodes(fn))]
+                if loc:
+                    return loc[0], n
+        return None, None
+    VC, c_site = decl_var('ConstantStatement')
+    VM, v_site = decl_var('VariableStatement')
+    ctx.require(VC is not None and VM is not None, 'supporting_database_for_provable: no `$c` / `$v` declaration is generated from a local set')
+
+    def iter_origins(it):
+        """origins named by the iterable of a scanning loop"""
+        if isinstance(it, ast.BinOp) and isinstance(it.op, ast.Add):
+            return iter_origins(it.left) | iter_origins(it.right)
+        if isinstance(it, ast.Call) and isinstance(it.func, ast.Name) and it.func.id in ('tuple', 'list') and len(it.args) == 1:
+            return iter_origins(it.args[0])
+        if isinstance(it, (ast.ListComp, ast.GeneratorExp)):
+            return elt_origins(ast.Starred(value=it))
+        if isinstance(it, (ast.Tuple, ast.List)):
+            out = set()
+            for e in it.elts:
+                out |= elt_origins(e)
+            return out
+        if isinstance(it, ast.Name) and it.id == ESS:
+            return {ESS}
+        return set()
+
+    def elt_origins(e):
+        if isinstance(e, ast.Name) and e.id in (PROV, ESS):
+            return {e.id}
+        if isinstance(e, ast.Starred):
+            v = e.value
+            if isinstance(v, ast.Name) and v.id == ESS:
+                return {ESS}
+            if isinstance(v, (ast.GeneratorExp, ast.ListComp)) and len(v.generators) == 1 and not v.generators[0].ifs \
+                    and isinstance(v.elt, ast.Subscript) and ast.unparse(v.elt.value) == CUT \
+                    and ast.unparse(v.elt.slice) == ast.unparse(v.generators[0].target) and isinstance(v.generators[0].iter, ast.Name):
+                return {f'{CUT}[{v.generators[0].iter.id}]'}
+        return set()
+
+    def unconditional_in_loop(stmt, lp):
+        for sp in astpaths.paths(lp.body):
+            if sp.end in ('fall', 'continue') and not any(stmt is a or any(stmt is x for x in ast.walk(a)) for a in sp.actions):
+                return False
+        return True
+
+    def scanned(var, pat):
+        """origins whose symbols are fed into `var` (pat: regex on the feeding call with group 1 = the scanned expression)"""
+        out, last = set(), -1
+        for n in _own_nodes(fn):
+            txt = None
+            if isinstance(n, ast.Expr) and isinstance(n.value, ast.Call) and ast.unparse(n.value.func) in (f'{var}.update', f'{var}.add'):
+                txt = ast.unparse(n.value.args[0]) if n.value.args else ''
+                arg = n.value.args[0] if n.value.args else None
+            elif isinstance(n, ast.AugAssign) and ast.unparse(n.target) == var and isinstance(n.op, ast.BitOr):
+                txt, arg = ast.unparse(n.value), n.value
+            elif isinstance(n, (ast.Assign, ast.AnnAssign)) and ast.unparse(n.targets[0] if isinstance(n, ast.Assign) else n.target) == var \
+                    and n.value is not None and ast.unparse(n.value) not in ('set()', 'frozenset()'):
+                txt, arg = ast.unparse(n.value), n.value
+            if txt is None:
+                continue
+            m = re.fullmatch(pat, txt)
+            if not m:
+                continue
+            last = max(last, top_index.get(id(n), -1))
+            inner = ast.parse(m.group(1), mode='eval').body
+            srcs = inner.elts if isinstance(inner, (ast.Tuple, ast.List)) else [inner]
+            for src in srcs:
+                lp = loop_of.get(id(n))
+                if isinstance(src, ast.Name) and lp is not None and ast.unparse(lp.target) == src.id:
+                    if unconditional_in_loop(n, lp):
+                        out |= iter_origins(lp.iter)
+                else:
+                    out |= elt_origins(src) | (iter_origins(src) if isinstance(src, (ast.Tuple, ast.List, ast.BinOp)) else set())
+        return out, last
+
+    scan_c, last_c = scanned(VC, r'statements_get_constants\((.*)\)')
+    scan_m, last_m = scanned(VM, r'(.*)\.get_metavariables\(\)')
+    last_feed = max(last_c, last_m)
+    ctx.require(last_feed >= 0, 'supporting_database_for_provable: no statement feeds the declaration sets')
+
+    # ---- emission sites
+    emitted = []          # (top index, description, origins, can_be_float, loop, node)
+    for n in _own_nodes(fn):
+        if not (isinstance(n, ast.Call) and ast.unparse(n.func) in (f'{OUT}.append', f'{OUT}.extend', f'{OUT}.insert')):
+            continue
+        arg = n.args[-1]
+        lp = loop_of.get(id(n))
+        if isinstance(arg, ast.Call) and isinstance(arg.func, ast.Name) and arg.func.id in ('ConstantStatement', 'VariableStatement', 'DisjointStatement'):
+            emitted.append((top_index[id(n)], arg.func.id, {'decl:' + arg.func.id}, False, lp, n))
+        elif isinstance(arg, ast.Call) and isinstance(arg.func, ast.Name) and arg.func.id == 'Block' and len(arg.args) == 1:
+            orgs = iter_origins(arg.args[0])
+            elts = arg.args[0].elts if isinstance(arg.args[0], (ast.Tuple, ast.List)) else []
+            ctx.ob('slice-closure', 'lemma-block-shape', bool(elts) and ast.unparse(elts[-1]) == PROV and orgs == {PROV, ESS},
+                   f'the lemma must be emitted as a block of its own hypotheses followed by the lemma itself; found `{ast.unparse(arg)[:80]}`',
+                   py.where(SLICER, n))
+            emitted.append((top_index[id(n)], 'Block', orgs, False, lp, n))
+        elif isinstance(arg, ast.Name) and lp is not None and isinstance(lp.target, ast.Tuple) and len(lp.target.elts) == 2 \
+                and ast.unparse(lp.target.elts[1]) == arg.id and re.fullmatch(rf'{CUT}\.items\(\)', ast.unparse(lp.iter)):
+            key, st = (ast.unparse(e) for e in lp.target.elts)
+            for sp in astpaths.paths(lp.body):
+                if not any(any(x is n for x in ast.walk(a)) for a in sp.actions):
+                    continue
+                true = [c for c, b in sp.conds if b]
+                m_named = [re.fullmatch(rf'{key} in (\w+)', c) for c in true]
+                named = [m.group(1) for m in m_named if m]
+                flt = f'isinstance({st}, FloatingStatement)' in true
+                m_mv = [re.fullmatch(rf'{st}\.metavariable in (\w+)', c) for c in true]
+                mvs = [m.group(1) for m in m_mv if m]
+                not_float = (f'isinstance({st}, FloatingStatement)', False) in sp.conds
+                if named:
+                    emitted.append((top_index[id(n)], f'named in {named[0]}', {f'{CUT}[{named[0]}]'}, not not_float, lp, n))
+                elif flt and mvs:
+                    emitted.append((top_index[id(n)], f'floating hypothesis of a variable in {mvs[0]}', {f'float[{mvs[0]}]'}, True, lp, n))
+                else:
+                    emitted.append((top_index[id(n)], 'under ' + (' and '.join(true) or 'no condition'), {'?'}, not not_float, lp, n))
+        else:
+            emitted.append((top_index[id(n)], ast.unparse(arg)[:60], {'?'}, True, lp, n))
+    ctx.require(len(emitted) >= 5, 'supporting_database_for_provable: emission sites not recognised')
+
+    # (1) closure: what is emitted was scanned, for constants and for variables
+    k = 0
+    for idx, desc, orgs, _f, lp, n in emitted:
+        for o in sorted(orgs):
+            if o.startswith('decl:'):
+                continue
+            k += 1
+            if o.startswith('float['):
+                ok = o == f'float[{VM}]'
+                ctx.ob('slice-closure', f'emit:{desc}', ok,
+                       f'a floating hypothesis is emitted for variables in `{o[6:-1]}`, not the set `{VM}` the `$v` declaration is generated from',
+                       py.where(SLICER, n), facts={'origin': o})
+                continue
+            if o == '?':
+                ctx.ob('slice-closure', f'emit:{desc}', False,
+                       f'the slice emits a statement ({desc}) that is tied neither to the labels whose statements were scanned nor to '
+                       f'the variables in use: its constants and variables may be undeclared', py.where(SLICER, n))
+                continue
+            missing = [nm for nm, sc in ((f'constants ({VC})', scan_c), (f'variables ({VM})', scan_m)) if o not in sc]
+            ctx.ob('slice-closure', f'emit:{o}', not missing,
+                   f'the slice emits `{o}` but its symbols are never collected into the {" and the ".join(missing)}: a constant, a variable '
+                   f'or the floating hypothesis of a variable occurring only there is not declared in the slice (the parser then reads the '
+                   f'variable as a constant and the lemma changes meaning)', py.where(SLICER, n),
+                   facts={'scanned for constants': sorted(scan_c), 'scanned for variables': sorted(scan_m)})
+    # (2) the scan is complete before anything is emitted, and the label set does not grow after the scan
+    for idx, desc, orgs, _f, lp, n in emitted:
+        ctx.ob('slice-closure', f'scan-before-emit:{desc}', idx > last_feed,
+               f'`{ast.unparse(n)[:60]}` is emitted before the scan of the needed statements is complete', py.where(SLICER, n))
+    label_sets = {o[len(CUT) + 1:-1] for _i, _d, orgs, _f, _l, _n in emitted for o in orgs if o.startswith(CUT + '[')}
+    for ls in sorted(label_sets):
+        stores = [top_index[id(n)] for n in _own_nodes(fn)
+                  if (isinstance(n, ast.AugAssign) and ast.unparse(n.target) == ls) or
+                  (isinstance(n, ast.Assign) and any(ast.unparse(t) == ls for t in n.targets)) or
+                  (isinstance(n, ast.Call) and ast.unparse(n.func) in (f'{ls}.add', f'{ls}.update'))]
+        ctx.ob('slice-closure', f'label-set-final:{ls}', bool(stores) and max(stores) < min(i for i in (last_c, last_m) if i >= 0),
+               f'`{ls}` is extended after the statements it names were scanned for symbols: statements added later are emitted unscanned',
+               where)
+    # (3) declarations precede uses
+    pos = {d: i for i, d, _o, _f, _l, _n in emitted if d in ('ConstantStatement', 'VariableStatement', 'Block')}
+    body_emits = [i for i, d, o, _f, _l, _n in emitted if not any(x.startswith('decl:') for x in o) and d != 'Block']
+    ok = 'ConstantStatement' in pos and 'VariableStatement' in pos and 'Block' in pos and body_emits \
+        and max(pos['ConstantStatement'], pos['VariableStatement']) < min(body_emits) and max(body_emits) < pos['Block']
+    ctx.ob('slice-closure', 'declarations-first', bool(ok),
+           'the slice must list `$c` and `$v` first, then the supporting statements, then the lemma block (a variable used before its '
+           '`$v` is read as a constant by the parser)', where, facts={'order': [d for _i, d, _o, _f, _l, _n in sorted(emitted, key=lambda e: e[0])]})
+    # (4) floating hypotheses: one pass, in container order
+    float_loops = {}
+    for idx, desc, orgs, can_float, lp, n in emitted:
+        if can_float and lp is not None and not any(o.startswith('decl:') for o in orgs):
+            float_loops.setdefault(id(lp), (lp, []))[1].append(desc)
+    ctx.ob('slice-closure', 'floats-in-one-ordered-pass', len(float_loops) == 1,
+           f'floating hypotheses are emitted by {len(float_loops)} separate passes over `{CUT}` '
+           f'({"; ".join(", ".join(d) for _l, d in float_loops.values())}): a hypothesis emitted by a later pass comes after hypotheses that '
+           f'followed it in the database, which permutes the mandatory hypotheses of every statement using both variables', where)
+    ctx.analysed['slice: emission sites'] = len(emitted)
+    ctx.analysed['slice: origins scanned'] = {'constants': sorted(scan_c), 'variables': sorted(scan_m)}
+    ctx.floor('slice-closure', 12)
 
 
 def _encl(tree, node) -> str:
